@@ -13,7 +13,14 @@ import (
 	"golang.org/x/tools/go/ssa/ssautil"
 )
 
-const repoDir = "/repo"
+// repoDir is /repo; GOSYM_REPO points the engine at a scratch clone instead (used only by
+// tools/seedtest.sh to try seeded changes without touching /repo).
+var repoDir = func() string {
+	if d := os.Getenv("GOSYM_REPO"); d != "" {
+		return d
+	}
+	return "/repo"
+}()
 const modPath = "github.com/MixinNetwork/mixin"
 
 type Loaded struct {
